@@ -22,7 +22,7 @@ import sys
 
 ROOT = os.path.dirname(os.path.dirname(os.path.dirname(os.path.abspath(__file__))))
 REPO = os.environ.get("VERIF_REPO", "/repo")
-TABLE = os.path.join(ROOT, "checks", "lock_sites.json")
+TABLE = os.environ.get("VERIF_LOCK_TABLE", os.path.join(ROOT, "checks", "lock_sites.json"))
 GEN_LEAN = os.path.join(ROOT, "lean", "Rfsm", "Gen", "LockSites.lean")
 GEN_JSON = os.path.join(ROOT, "lean", "Rfsm", "Gen", "lock_sites_resolved.json")
 
